@@ -1,3 +1,4 @@
+#include "specdefs.h"
 /* assumed contract on the dependency tmcg_mpz_grandom_ui (libgcrypt word):
  * returns an arbitrary machine word and appends it to the ghost draw log */
 unsigned long tmcg_mpz_grandom_ui(enum gcry_random_level level)
@@ -9,5 +10,3 @@ __CPROVER_ensures(draw_last == __CPROVER_return_value)
 __CPROVER_ensures(__CPROVER_old(draw_n) == ghost_k ==> ghost_val == __CPROVER_return_value)
 __CPROVER_ensures(__CPROVER_old(draw_n) != ghost_k ==> ghost_val == __CPROVER_old(ghost_val))
 ;
-/* rho = 2^64 mod m, written without leaving 64 bits */
-#define RHO(m) (((ULONG_MAX % (m)) + 1UL) % (m))
